@@ -83,6 +83,8 @@ package keeper
 //@       bal(moduleAddr("order"), refund.Denom) == old(bal(moduleAddr("order"), refund.Denom)) + refund.Amount
 //@       && bal(moduleAddr("market"), refund.Denom) == old(bal(moduleAddr("market"), refund.Denom)) - refund.Amount
 //@   ensures [C04.withdraw.nonneg] err == nil ==> refund.Amount >= 0
+//@   ensures [C04.withdraw.notstarted] err == nil && order.Amount.Amount > 0 && (forall j int :: 0 <= j && j < len(order.Shards) && has(Shard, order.Shards[j]) ==>
+//@         Shard[order.Shards[j]].Status == ShardCompleted && Shard[order.Shards[j]].OrderId < order.Id) ==> refund.Amount >= order.Amount.Amount - 1
 //@   loop L1 invariant -1 <= rangeindex
 //@   loop L1 invariant forall a addr, d string :: bal(a, d) == old(bal(a, d))
 
